@@ -221,10 +221,13 @@ def run(ctx):
     rets = [p for p in paths if p.returns and N.mk_not(("param", "bitwise")) in p.guards()]
     def matches(p, want_):
         sp = specialise(want_, p)
-        return p.retval == want_ or (p.retval == sp and not any(x[0] == "ite" for x in N.walk(sp)))
+        got_ = format_parts(p.retval)
+        return got_ == format_parts(want_) or (got_ == format_parts(sp) and not any(x[0] == "ite" for x in N.walk(sp)))
+    def same_text(a_, b_):
+        return format_parts(a_) == format_parts(b_)
     ctx.ob("C19.R2", fi, len(rets) in (1, 4) and all(matches(p, want) for p in rets), "BytesInteger exports {s|u}{length}{le|be} with s iff signed and le iff swapped (what _parse does)", key="BytesInteger type")
     bits = [p for p in paths if p.returns and ("param", "bitwise") in p.guards()]
-    ctx.ob("C19.R2", fi, len(bits) == 1 and bits[0].retval == ("fmt", N.const("b%s"), ("tuple", (N.mk_mul(N.const(8), N.selfattr("length")),))), "in a bitwise context BytesInteger exports b{8*length}", key="BytesInteger bit type")
+    ctx.ob("C19.R2", fi, len(bits) == 1 and same_text(bits[0].retval, ("fmt", N.const("b%s"), ("tuple", (N.mk_mul(N.const(8), N.selfattr("length")),)))), "in a bitwise context BytesInteger exports b{8*length}", key="BytesInteger bit type")
     fi, paths = own_method_paths(ctx, "FormatField", "_emitprimitivetype")
     order, code = ("unpack", N.selfattr("fmtstr"), 0), ("unpack", N.selfattr("fmtstr"), 1)
     little = N.mk_bool("or", [N.mk_cmp("==", order, N.const("<")), N.mk_bool("and", [N.mk_cmp("==", order, N.const("=")), N.mk_cmp("==", ("attr", ("free", "sys"), "byteorder"), N.const("little"))])])
@@ -235,10 +238,10 @@ def run(ctx):
     flts = [p for p in paths if p.returns and any(c[0] == "cmp" and c[1] == "in" and c[3] == N.const("fd") for c in p.guards())]
     ctx.ob("C19.R2", fi, len(ints) >= 1 and all(matches(p, want_i) for p in ints), "FormatField integers export {s|u}{length}{le|be}: signed iff lower-case code, little-endian iff '<' or native on a little-endian host (struct semantics)", key="FormatField int type")
     fbits = [p for p in paths if p.returns and ("param", "bitwise") in p.guards()]
-    ctx.ob("C19.R2", fi, len(fbits) >= 1 and all(p.retval == ("fmt", N.const("b%s"), ("tuple", (N.mk_mul(N.const(8), N.selfattr("length")),))) for p in fbits), "in a bitwise context FormatField integers export b{8*length}", key="FormatField bit type")
+    ctx.ob("C19.R2", fi, len(fbits) >= 1 and all(same_text(p.retval, ("fmt", N.const("b%s"), ("tuple", (N.mk_mul(N.const(8), N.selfattr("length")),)))) for p in fbits), "in a bitwise context FormatField integers export b{8*length}", key="FormatField bit type")
     ctx.ob("C19.R2", fi, len(flts) >= 1 and all(matches(p, want_f) for p in flts), "FormatField floats export f{length}{le|be} with the same byte-order rule", key="FormatField float type")
     fi, paths = own_method_paths(ctx, "BitsInteger", "_emitprimitivetype")
-    ok = all(p.retval == ("fmt", N.const("b%s"), ("tuple", (N.selfattr("length"),))) for p in paths if p.returns) and any(p.returns for p in paths)
+    ok = all(same_text(p.retval, ("fmt", N.const("b%s"), ("tuple", (N.selfattr("length"),)))) for p in paths if p.returns) and any(p.returns for p in paths)
     ctx.ob("C19.R2", fi, ok, "BitsInteger exports b{length}", key="BitsInteger type")
     # Bitwise switches its contents to bit context, Bytewise back to byte context: the three export closures pass bitwise=True / False on
     for macro, flag in (("Bitwise", N.TRUE), ("Bytewise", N.FALSE)):
@@ -347,7 +350,17 @@ def run(ctx):
         ctx.ob("C19.R3", fi, r == want, "%s._emitseq lists every member's full type in declaration order" % cls, key="%s order" % cls)
     fi, paths = own_method_paths(ctx, "Renamed", "_emitfulltype")
     named = [p for p in paths if N.selfattr("name") in p.guards()]
-    ok = bool(named) and all(any(e.kind == "MUT" and e["method"] == "update" and dict(e["kw"]).get("id") == N.selfattr("name") for e in p.events) for p in named)
+    def id_entry(p):
+        # the `id` the returned record holds: given to dict(...) at construction or put in by update(id=...), the later one wins
+        got = None
+        r = p.retval
+        if r is not None and r[0] == "call" and r[1] == ("free", "dict") and not r[2]:
+            got = dict(r[3]).get("id", got)
+        for e in p.events:
+            if e.kind == "MUT" and e["method"] == "update" and "id" in dict(e["kw"]):
+                got = dict(e["kw"])["id"]
+        return got
+    ok = bool(named) and all(p.returns and id_entry(p) == N.selfattr("name") for p in named if p.returns) and any(p.returns for p in named)
     ctx.ob("C19.R3", fi, ok, "Renamed exports id = its own name", key="Renamed id")
     for where, meth, macro in (("Prefixed", "_emitseq", None), (None, "_emitseq", "PascalString"), (None, "_emitseq", "PrefixedArray")):
         fi, paths = one(where, meth, macro)
